@@ -86,7 +86,10 @@ Definition K_PLAIN := 1. Definition K_HTTP := 2. Definition K_PM := 3. Definitio
 Definition K_FORBIDDEN := 4. Definition K_NOTFOUND := 5.
 
 Record fault := mkFault { f_pt : N; f_kind : N; f_n : N }.
-Record reg := mkReg { r_pt : N; r_which : N }.       (* which: bit 1 response callback, bit 2 finished callback *)
+(* which: bit 0 response callback, bit 1 finished callback.  r_n only matters when the registering point is
+   itself a callback (r_pt = P_RESP_CB / P_FIN_CB): the registration is made by the r_n-th callback of that
+   kind to run (0-based), so every entry fires at most once per request and callback chains are bounded. *)
+Record reg := mkReg { r_pt : N; r_which : N; r_n : N }.
 Inductive scn := Scn (route : bool) (faults : list fault) (regs : list reg) (sub : subreq)
 with subreq := NoSub | Sub (tweens : bool) (s : scn).
 Definition s_route (s : scn) := match s with Scn r _ _ _ => r end.
@@ -129,9 +132,12 @@ Definition find_fault (fs : list fault) (pt n : N) : N :=
                        (negb (N.eqb pt P_RESP_CB || N.eqb pt P_FIN_CB) || N.eqb (f_n f) n)) fs with
   | Some f => f_kind f | None => 0 end.
 
-Definition do_regs (rs : list reg) (pt : N) (st : state) : state :=
+Definition is_cb (pt : N) : bool := N.eqb pt 16 || N.eqb pt 18.
+Definition reg_fires (r : reg) (pt n : N) : bool :=
+  N.eqb (r_pt r) pt && (negb (is_cb pt) || N.eqb (r_n r) n).
+Definition do_regs (rs : list reg) (pt n : N) (st : state) : state :=
   fold_left (fun st r =>
-    if N.eqb (r_pt r) pt then
+    if reg_fires r pt n then
       mkSt (stk st) (log st)
            (if N.testbit (r_which r) 0 then rq st ++ [pt] else rq st)
            (if N.testbit (r_which r) 1 then fq st ++ [pt] else fq st) (nr st) (nf st)
@@ -145,7 +151,7 @@ Definition log_ev (l pt aux : N) (st : state) : state :=
    answers Ok 1 / Ok 0 (a predicate or the policy saying no) / Ex kind *)
 Definition hit (l : N) (sc : scn) (pt aux n : N) (may_false : bool) : M :=
   fun st =>
-    let st1 := do_regs (s_regs sc) pt (log_ev l pt aux st) in
+    let st1 := do_regs (s_regs sc) pt n (log_ev l pt aux st) in
     let k := find_fault (s_faults sc) pt n in
     if N.eqb k 0 then (st1, Ok 1)
     else if N.eqb k K_FALSE then (st1, Ok (if may_false then 0 else 1))
@@ -156,7 +162,7 @@ Definition hit0 l sc pt := hit l sc pt 0 0 false.
    [subrun]: what request.invoke_subrequest does for this scenario's subrequest, if any. *)
 Definition view_body (l : N) (sc : scn) (subrun : option M) : M :=
   fun st =>
-    let st1 := do_regs (s_regs sc) P_VIEW (log_ev l P_VIEW 0 st) in
+    let st1 := do_regs (s_regs sc) P_VIEW 0 (log_ev l P_VIEW 0 st) in
     let after := fun st2 =>
       let k := find_fault (s_faults sc) P_VIEW 0 in
       if N.eqb k 0 || N.eqb k K_FALSE then (st2, Ok P_VIEW) else (st2, Ex k) in
@@ -245,12 +251,16 @@ Fixpoint fin_cbs (fuel : nat) (l : N) (sc : scn) : M :=
           end
       end
   end.
-(* the loops of _process_response_callbacks / _process_finished_callbacks: one more unit of fuel than
-   callbacks pending.  That is enough unless a callback re-registers a callback of its own kind (a
-   response callback adding a response callback, a finished callback adding a finished callback), in which
-   case the real loop does not terminate either; such scenarios are excluded by [valid_tree]. *)
-Definition resp_loop (l : N) (sc : scn) : M := fun st => resp_cbs (S (length (rq st))) l sc st.
-Definition fin_loop (l : N) (sc : scn) : M := fun st => fin_cbs (S (length (fq st))) l sc st.
+(* the loops of _process_response_callbacks / _process_finished_callbacks.  A callback may register further
+   callbacks of its own kind; every registration entry fires at most once, so the total budget
+   (callbacks pending + registrations of that kind that can still fire) + 1 is enough fuel: each iteration
+   takes one unit off that budget (proved in Proofs/C13_c.v: resp_spec / fin_spec never run out). *)
+Definition pend (bit pt : N) (rs : list reg) (c : N) : nat :=
+  length (filter (fun r => N.eqb (r_pt r) pt && N.testbit (r_which r) bit && N.leb c (r_n r)) rs).
+Definition resp_loop (l : N) (sc : scn) : M :=
+  fun st => resp_cbs (S (length (rq st) + pend 0 P_RESP_CB (s_regs sc) (nr st))) l sc st.
+Definition fin_loop (l : N) (sc : scn) : M :=
+  fun st => fin_cbs (S (length (fq st) + pend 1 P_FIN_CB (s_regs sc) (nf st))) l sc st.
 
 (* Router.invoke_request: the try body ... *)
 Definition invoke_chain (ev : N) (l : N) (sc : scn) (tw : bool) (subrun : option M) : M :=
@@ -284,12 +294,21 @@ Definition run_top (ev : N) (sc : scn) (s0 : list N) : state * res :=
 
 (* ---- declarative judge of an observation (outcome is not constrained by the property) *)
 Definition lvl_log (l : N) (lg : list pev) : list pev := filter (fun e => N.eqb (e_lvl e) l) lg.
-(* callbacks registered according to the components that were observed to run *)
-Definition registered (bit : N) (rs : list reg) (lg : list pev) : list N :=
-  flat_map (fun e =>
-    if N.eqb (e_pt e) P_VIEW && N.eqb (e_aux e) 1 then []
-    else flat_map (fun r => if N.eqb (r_pt r) (e_pt e) && N.testbit (r_which r) bit then [e_pt e] else []) rs) lg.
 Definition is_pt (p : N) (e : pev) : bool := N.eqb (e_pt e) p.
+(* callbacks registered according to the components that were observed to run: the registrations a
+   component at point pt makes; for a callback event, the entries of the callback with that running number
+   (cr / cf count the response / finished callback events seen so far) *)
+Definition regsfor (bit : N) (rs : list reg) (pt n : N) : list N :=
+  flat_map (fun r => if reg_fires r pt n && N.testbit (r_which r) bit then [pt] else []) rs.
+Fixpoint registered_from (bit : N) (rs : list reg) (cr cf : N) (lg : list pev) : list N :=
+  match lg with
+  | [] => []
+  | e :: r =>
+      (if N.eqb (e_pt e) P_VIEW && N.eqb (e_aux e) 1 then []
+       else regsfor bit rs (e_pt e) (if is_pt 16 e then cr else cf))
+      ++ registered_from bit rs (if is_pt 16 e then cr + 1 else cr) (if is_pt 18 e then cf + 1 else cf) r
+  end.
+Definition registered (bit : N) (rs : list reg) (lg : list pev) : list N := registered_from bit rs 0 0 lg.
 Fixpoint list_eqb (a b : list N) : bool :=
   match a, b with [] , [] => true | x :: a', y :: b' => N.eqb x y && list_eqb a' b' | _, _ => false end.
 Fixpoint is_prefix (a b : list N) : bool :=
@@ -326,14 +345,13 @@ Definition judge_own (l : N) (sc : scn) (tw : bool) (L : list pev) : bool :=
 Definition judge_level (l : N) (sc : scn) (tw : bool) (lg : list pev) : bool :=
   judge_own l sc tw (lvl_log l lg).
 
-(* scenarios the theorems quantify over (harness: valid()): a fault has a kind, "false/denied" only where a
-   predicate or the policy can say no, and no callback re-registers a callback of its own kind *)
+(* scenarios the theorems quantify over (harness: valid()): a fault has a kind, and "false/denied" occurs only
+   where a predicate or the policy can say no.  Registrations are unrestricted (callbacks may register
+   callbacks of their own kind). *)
 Definition valid_level (sc : scn) : bool :=
   forallb (fun f => negb (N.eqb (f_kind f) 0) &&
                     (negb (N.eqb (f_kind f) K_FALSE) || memN (f_pt f) [P_ROUTE_PRED; P_VIEW_PRED; P_PERMITS]))
-          (s_faults sc)
-  && forallb (fun r => negb (N.eqb (r_pt r) P_RESP_CB && N.testbit (r_which r) 0)
-                       && negb (N.eqb (r_pt r) P_FIN_CB && N.testbit (r_which r) 1)) (s_regs sc).
+          (s_faults sc).
 Fixpoint valid_tree (sc : scn) : bool :=
   valid_level sc && match s_sub sc with NoSub => true | Sub _ sc' => valid_tree sc' end.
 
@@ -355,7 +373,8 @@ Definition get_fault (v : val) : option fault :=
   match v with VL [p; k; n] => olet p := get_N p in olet k := get_N k in olet n := get_N n in Some (mkFault p k n)
   | _ => None end.
 Definition get_reg (v : val) : option reg :=
-  match v with VL [p; w] => olet p := get_N p in olet w := get_N w in Some (mkReg p w) | _ => None end.
+  match v with VL [p; w; n] => olet p := get_N p in olet w := get_N w in olet n := get_N n in Some (mkReg p w n)
+  | _ => None end.
 Fixpoint get_scn (fuel : nat) (v : val) : option scn :=
   match fuel with O => None | S fuel' =>
   match v with
